@@ -91,6 +91,12 @@ pub fn with_trivia(c: &mut WtCase, seed: u64, salt: &str, idx: u64) {
     c.sources = sources_of(&c.printed);
 }
 
+/// Reprints the case with as few blanks as possible (`wrap@item`, `f(x)`).
+pub fn with_tight(c: &mut WtCase) {
+    c.printed = crate::gen::print::print_program_tight(&c.prog);
+    c.sources = sources_of(&c.printed);
+}
+
 /// Feature census of a program (for coverage histograms and the non-triviality rule).
 pub fn features(p: &Program) -> Vec<&'static str> {
     let mut f: Vec<&'static str> = Vec::new();
